@@ -136,7 +136,19 @@ type grant struct {
 type arrival struct {
 	g     Gate
 	reply chan grant
+	ack   chan struct{} // closed by the receiver once the granted delivery is in the log
 	seq   int64
+}
+
+// release grants a parked delivery and waits until the receiver has recorded it.
+func (a *arrival) release(g grant) {
+	a.reply <- g
+	select {
+	case <-a.ack:
+	case <-time.After(10 * time.Second):
+		fmt.Fprintln(os.Stderr, "harness: granted delivery was never recorded:", a.g)
+		os.Exit(3)
+	}
 }
 
 type harness struct {
@@ -248,13 +260,14 @@ func (r *rec) Receive(c *actor.Context) {
 	h.chainOK[r.name] = true
 	h.mu.Unlock()
 
-	a := &arrival{g: Gate{r.name, r.inc, kind, id}, reply: make(chan grant, 1), seq: h.seq.Add(1)}
+	a := &arrival{g: Gate{r.name, r.inc, kind, id}, reply: make(chan grant, 1), ack: make(chan struct{}), seq: h.seq.Add(1)}
 	h.arrive <- a
 	g := <-a.reply
 	if g.abandon {
 		h.mu.Lock()
 		h.inside[r.name]--
 		h.mu.Unlock()
+		close(a.ack)
 		return
 	}
 	// observations inside the delivery
@@ -280,6 +293,7 @@ func (r *rec) Receive(c *actor.Context) {
 	h.log = append(h.log, en)
 	idx := len(h.log) - 1
 	h.mu.Unlock()
+	close(a.ack)
 
 	if kind == "Started" {
 		for _, k := range h.cfg.Actors[r.name].Kids {
@@ -526,7 +540,7 @@ func runScenario(cfg Config, sc Scenario) *Result {
 				continue
 			}
 			delete(pending, st.A)
-			a.reply <- grant{crash: st.Crash}
+			a.release(grant{crash: st.Crash})
 		}
 		if res.Diverged {
 			h.drainUnsteered(pending, pollDone)
@@ -545,6 +559,22 @@ func runScenario(cfg Config, sc Scenario) *Result {
 	}
 	if res.Diverged {
 		h.drainUnsteered(pending, pollDone)
+	}
+	// every granted delivery has returned (only parked ones are still inside Receive)
+	for time.Now().Before(deadline) {
+		h.mu.Lock()
+		busy := 0
+		for n, k := range h.inside {
+			if _, parked := pending[n]; parked {
+				k--
+			}
+			busy += k
+		}
+		h.mu.Unlock()
+		if busy <= 0 {
+			break
+		}
+		time.Sleep(100 * time.Microsecond)
 	}
 	pollDone()
 	// containment witness
@@ -590,7 +620,7 @@ func (h *harness) drainUnsteered(pending map[string]*arrival, poll func()) {
 	for {
 		for k, a := range pending {
 			delete(pending, k)
-			a.reply <- grant{}
+			a.release(grant{})
 		}
 		select {
 		case a := <-h.arrive:
